@@ -135,6 +135,15 @@ pub fn gen_case(rng: &mut Rng, i: usize, maxrecs: usize) -> MinCase {
             gen_seq(rng, len, false)
         })
         .collect();
+    if i % 40 == 4 {
+        // a few very long records (thousands of runs per line) written by several workers at the same time, among short ones
+        let mut recs: Vec<Vec<u8>> = Vec::new();
+        for j in 0..12 {
+            let len = if j < 4 { rng.range(1800, 2200) as usize } else { rng.range(0, 60) as usize };
+            recs.push((0..len).map(|_| *rng.pick(b"ACGT")).collect());
+        }
+        return MinCase { m2s: false, w: 8, m: 7, threads: 6, recs };
+    }
     MinCase { m2s: i % 2 == 1, w, m, threads: 1 + rng.below(16) as usize, recs }
 }
 
@@ -192,8 +201,20 @@ pub fn replay(schedfile: &str, threads: usize, dir: &str, seed: u64, stride: usi
         let res = handle.join();
         Recorder::uninstall();
         if let Some(f) = fail {
+            if f.starts_with("VANISHED") {
+                println!("{}", reset_event(&c, "sched"));
+                for e in rec.take_log().iter() {
+                    println!("{}", ev_json(e));
+                }
+                println!("{}", json!({"ev":"crash","kind":"vanished","what":f}));
+                done += 1;
+                break;
+            }
             unrep += 1;
             eprintln!("unreplayable schedule {}: {}", i, f);
+            if unrep >= 25 {
+                break;
+            }
             continue;
         }
         let mut evs = vec![reset_event(&c, "sched")];
